@@ -79,7 +79,8 @@ def run_realign(gaf, graph, fasta, output=None, cores=1):
 
     if cores > mp.cpu_count():
         logger.warning("Number of cores requested is greater than the total number of CPU cores.")
-        cores = min(mp.cpu_count() - 1, cores)
+        # at least one worker at a time: with 0 no group is ever run and every batch of the file is started at once at the end
+        cores = max(1, min(mp.cpu_count() - 1, cores))
 
     # realign_gaf(gaf, graph, fasta, output, ext, cores)
     realign_gaf(gaf, graph, fasta, output, cores)
